@@ -125,10 +125,15 @@ def path_obligations():
         L2 = inl[0][1] if inl else None
         body = [e for e in ev if (e[0] in ("call", "store", "break") and (L1 in (e[5] if e[0] == "call" else (e[4] if e[0] == "store" else e[1]))))]
         broke = any(e[0] == "break" and e[1] and e[1][-1] == L1 for e in ev)
-        alpha_lv = ("loopvar", L1[0], "alpha", ("attr", CLF, "alpha"))
         st_alpha = [e for e in ev if e[0] == "store" and e[1] == CLF and e[2] == "alpha"]
+        # the step's alpha: the loop-carried variable (whatever its local name) that starts at the model's alpha
+        alpha_lv = st_alpha[0][3] if st_alpha else None
+        ok_alv = (isinstance(alpha_lv, tuple) and len(alpha_lv) == 4 and alpha_lv[0] == "loopvar" and alpha_lv[1] == L1[0]
+                  and alpha_lv[3] == ("attr", CLF, "alpha"))
         ob("step: clf.alpha is set to the step's alpha (geometric schedule starting at the model's alpha) before training",
-           len(st_alpha) == 1 and st_alpha[0][3] == alpha_lv and st_alpha[0][4] == (L1,), {"stores": [fx.show(e[3]) for e in st_alpha]})
+           len(st_alpha) == 1 and ok_alv and st_alpha[0][4] == (L1,), {"stores": [fx.show(e[3]) for e in st_alpha]})
+        if not ok_alv:
+            continue
         # the four history lists are identified by identity: positions 1..4 of the returned tuple (local names do not matter)
         ret0 = st.ret
         hist = {}
@@ -142,14 +147,13 @@ def path_obligations():
                all(len(v) == 0 for v in apps.values()))
             nanc, nb = _find_pc(st, lambda c: c[:1] == ("callres",) and c[2] == "np.isnan" and c[3][0][:1] == ("loopout",))
             ob("NaN step: the only early exit is the NaN test on the last epoch's validation score", nanc is not None and nb is True)
-            alpha_out = st.env.get("alpha")
             continue
         ob("step: exactly one append to each of the four histories", all(len(v) == 1 for v in apps.values()),
            {k: len(v) for k, v in apps.items()})
         if not all(len(v) == 1 for v in apps.values()) or not x2:
             continue
         score = apps["geminis"][0][3][0]
-        ok_s = (score[:1] == ("loopout",) and score[2] == "iteration_gemini_score" and score[3][0] == "item"
+        ok_s = (score[:1] == ("loopout",) and score[1] == L2[0] and score[3][0] == "item"
                 and score[3][1][:1] == ("callres",) and score[3][1][2] == "compute_val_score" and score[3][2] == fx.C(0))
         ob("history: geminis gets the validation score computed after the last epoch of the step", ok_s, {"arg": fx.show(score)})
         ob("history: alphas gets the alpha the step trained with", apps["alphas"][0][3] == (alpha_lv,))
@@ -166,38 +170,44 @@ def path_obligations():
            "(recorded counts / penalties are those of the model at that step and of the next guard test)", not muts,
            {"mutators": [e[2] for e in muts]})
         # alpha update
-        a_out = st.env.get("alpha")
-        ok_a = (a_out[:1] == ("loopout",) and a_out[3] == ("binop", "Mult", alpha_lv, M))
+        a_out = st.env.get(alpha_lv[2])
+        ok_a = (a_out is not None and a_out[:1] == ("loopout",) and a_out[3] == ("binop", "Mult", alpha_lv, M))
         ob("step: alpha' = alpha * alpha_multiplier (effective value), once per step", ok_a, {"alpha": fx.show(a_out)})
         # ---------------- best fold
         best_lv = None
-        b_out = st.env.get("best_gemini_score")
-        bw_out = st.env.get("best_weights")
+        bw_out = ret0[1][0] if isinstance(ret0, tuple) and ret0[0] == "tuple" and ret0[1] else None
         init_best = ("item", cv0, fx.C(0))
-        best_lv = ("loopvar", L1[0], "best_gemini_score", init_best)
         nsel_eq = None
+        # the best score: the loop-carried variable (whatever its name) the step's score is compared with
         cbest, bbest = _find_pc(st, lambda c: c[0] == "boolop" and c[1] == "And" and len(c[2]) == 2 and c[2][0][:2] == ("cmp", ("GtE",))
-                                and c[2][0][2] == (score, best_lv))
+                                and c[2][0][2][0] == score and c[2][0][2][1][:2] == ("loopvar", L1[0]))
+        best_lv = cbest[2][0][2][1] if cbest is not None else ("loopvar", L1[0], "?", None)
+        b_out = st.env.get(best_lv[2])
         ok_cb = cbest is not None and cbest[2][1][:2] == ("cmp", ("Eq",)) and cbest[2][1][2][0][:1] == ("callres",) \
             and cbest[2][1][2][0][2] == "clf._n_selected_features" and cbest[2][1][2][1] == ("item", ("attr", V("X"), "shape"), fx.C(1))
+        if ok_cb:
+            # 'still selected' is the count of the model AFTER the step's last epoch (a count taken earlier in the step is stale)
+            cid = cbest[2][1][2][0][1]
+            at = [i for i, e in enumerate(ev) if e[0] == "call" and e[1] == cid]
+            ok_cb = bool(at) and bool(x2) and at[0] > x2[-1]
         ob("best fold: best score is raised iff score >= best and all features are still selected", ok_cb,
            {"cond": fx.show(cbest) if cbest else None})
         if not ok_cb:
             continue
         best_new = score if bbest else best_lv
-        ob("best fold: best' = score if raised else unchanged", b_out[:1] == ("loopout",) and b_out[3] == best_new, {"best": fx.show(b_out)})
+        ob("best fold: best' = score if raised else unchanged", b_out is not None and b_out[:1] == ("loopout",) and b_out[3] == best_new, {"best": fx.show(b_out)})
         ckeep, bkeep = _find_pc(st, lambda c: c[:2] == ("cmp", ("GtE",)) and c[2][0] == score and c[2][1][:2] == ("binop", "Mult"))
         ok_ck = ckeep is not None and ckeep[2][1] == ("binop", "Mult", Kt, best_new)
         ob("best fold: weights are kept iff score >= keep_threshold (effective value) * best'", ok_ck, {"cond": fx.show(ckeep) if ckeep else None})
         init_bw = None
-        bw_lv = bw_out[3] if bw_out[:1] == ("loopout",) else None
+        bw_lv = bw_out[3] if bw_out is not None and bw_out[:1] == ("loopout",) else None
         if ok_ck:
             if bkeep:
                 okw = (isinstance(bw_lv, tuple) and bw_lv[0] == "comp" and bw_lv[1] == "ListComp" and bw_lv[3] == (weights,)
                        and _is_copy_of_elem(bw_lv[2], weights, calls))
                 ob("best fold: kept weights are copies (w.copy()) of the current weights, in _get_weights() order", okw, {"value": fx.show(bw_lv)})
             else:
-                okw = isinstance(bw_lv, tuple) and bw_lv[0] == "loopvar" and bw_lv[2] == "best_weights"
+                okw = isinstance(bw_lv, tuple) and bw_lv[0] == "loopvar" and bw_lv[1] == L1[0] and bw_lv[2] == bw_out[2]
                 ob("best fold: otherwise the previous best weights are kept", okw)
                 if okw:
                     i0 = bw_lv[3]
@@ -210,7 +220,8 @@ def path_obligations():
         # value of i at the end of an epoch body: find through loopout term in env is lost; use the guard structure
         g2 = [e for e in ev if e[0] == "loop-guard" and e[1] == L2]
         ok_g2 = bool(g2) and g2[0][2][0] == "boolop" and g2[0][2][1] == "And" and \
-            g2[0][2][2][0] == ("cmp", ("Lt",), (("loopvar", L2[0], "i", fx.C(0)), ("attr", CLF, "max_iter")))
+            g2[0][2][2][0][:2] == ("cmp", ("Lt",)) and g2[0][2][2][0][2][1] == ("attr", CLF, "max_iter") and \
+            g2[0][2][2][0][2][0][:2] == ("loopvar", L2[0]) and g2[0][2][2][0][2][0][3] == fx.C(0)
         ob("inner loop: runs while i < clf.max_iter and patience < max_patience, i starting at 0", ok_g2,
            {"guard": fx.show(g2[0][2]) if g2 else None})
         # ---------------- result
@@ -227,14 +238,17 @@ def epoch_counter_obligation():
     import ast
     from gemclus.sparse import _base_sparse as BS
     node, _ = fx.fn_ast(BS._path)
-    inner = [n for n in ast.walk(node) if isinstance(n, ast.While) and "max_patience" in ast.unparse(n.test)]
+    outer = [n for n in node.body if isinstance(n, ast.While)]
+    inner = [n for o in outer for n in ast.walk(o) if isinstance(n, ast.While) and n is not o]
     ok = False
     if len(inner) == 1:
         body = inner[0].body
         last = body[-1]
-        ok = (isinstance(last, ast.AugAssign) and ast.unparse(last) == "i += 1"
+        cmps = [c for c in ast.walk(inner[0].test) if isinstance(c, ast.Compare) and isinstance(c.left, ast.Name) and "max_iter" in ast.unparse(c)]
+        ctr = cmps[0].left.id if cmps else None          # the epoch counter: the name compared with clf.max_iter in the guard
+        ok = (ctr is not None and isinstance(last, ast.AugAssign) and ast.unparse(last) == f"{ctr} += 1"
               and not any(isinstance(n, (ast.Continue, ast.Break)) for n in ast.walk(inner[0]))
-              and sum(1 for n in ast.walk(inner[0]) if isinstance(n, (ast.Assign, ast.AugAssign)) and "i" in
+              and sum(1 for n in ast.walk(inner[0]) if isinstance(n, (ast.Assign, ast.AugAssign)) and ctr in
                       [getattr(t, "id", None) for t in (n.targets if isinstance(n, ast.Assign) else [n.target])]) == 1)
     return [Ob("_path:inner loop: i += 1 is the last statement of every epoch and nothing else writes i (variant max_iter - i)",
                PROVED if ok else REFUTED, "fx-syntax", "P", {}, fn="gemclus.sparse._base_sparse._path")]
